@@ -79,6 +79,8 @@ def strat_history(draw, tier):
             s["fail"] = True           # the machine does not answer
         steps.append(s)
     return {"size": size, "buffer": draw(st.sampled_from([16, 64, 256])),
+            "forget_root": draw(st.one_of(st.none(), st.none(),
+                                          st.integers(1, 12))),
             "chip": draw(st.sampled_from([[0, 0], [1, 1]])),
             "tag": draw(st.sampled_from([0, 0, 3])),
             "clear": draw(st.booleans()), "steps": steps}
@@ -144,9 +146,23 @@ def check_history(case):
         root.root = root
         views = [root]
         escaped_seek = False
+        raised = result = caught = None
         for i, step in enumerate(case["steps"]):
+            if case.get("forget_root") == i and len(views) > 1 and \
+                    root.obj is not None:
+                # the program keeps only slices: its last reference to the
+                # root view goes away (neither closed nor freed)
+                import gc
+                raised = result = caught = v = None
+                root.obj = root_obj = None
+                gc.collect()
+                classes.add("root-forgotten")
             v = views[step["view"] % len(views)]
+            if v.obj is None:
+                continue
             kind = step["op"]
+            if kind == "free" and root.obj is None:
+                continue            # nothing left to call free() on
             det = {"step": i, "op": dict(step), "view": [v.start - start,
                                                          v.end - start],
                    "position": v.pos, "view_length": len(v)}
